@@ -82,6 +82,29 @@ def encLsp (a : Analysis Float) : String :=
       | some ts => " ".intercalate (ts.map fun (x : SemTok) => s!"{x.deltaLine},{x.deltaStart},{x.length},{x.tokenType}")
     s!"D {d} ; S {t}"
 
+/-- keep a program going until the interpreter is idle (or the step budget is spent): the records it
+    produced and how it ended -/
+def runToIdle (fuel : Nat) : Nat → St Float → List String → List String × St Float
+  | 0, s, acc => (acc ++ ["BUDGET"], s)
+  | n + 1, s, acc =>
+    let (outs, s) := takeOutput s
+    let acc := acc ++ outs.map encOut
+    match s.state with
+    | .running =>
+      (match continueEvaluating fuel s with
+       | .ok _ s' => runToIdle fuel n s' acc
+       | .err e s' =>
+         let (outs, s') := takeOutput s'
+         (acc ++ outs.map encOut ++ ["E:" ++ encErr e], s'))
+    | _ => (acc, s)
+
+def runCommand (fuel : Nat) (s : St Float) : List String × St Float :=
+  match startEvaluating fuel "RUN".toList s with
+  | .ok _ s' => runToIdle fuel 3000 s' []
+  | .err e s' =>
+    let (outs, s') := takeOutput s'
+    (outs.map encOut ++ ["E:" ++ encErr e], s')
+
 structure Session where
   st : St Float := {}
   lastErr : Option TErr := none
@@ -149,6 +172,19 @@ def step (sess : Session) (line : String) : Session × String :=
        (match a.panicked with
         | some site => (sess, "PANIC:" ++ site.replace " " "_")
         | none => ({ sess with st := a.intoInterpreter, lastErr := none }, "ok"))
+     | none => (sess, "bad-utf8"))
+  | ["cli", w, t, sk, h] =>
+    -- file mode vs the same lines piped into an interactive session followed by RUN, in the model
+    (match unhex h with
+     | some text =>
+       let (w, t, sk) := (w == "1", t == "1", sk == "1")
+       if cliRefuses (F := Float) sess.fuel sk text then (sess, "refused")
+       else
+         let fileSt := cliLoad (F := Float) sess.fuel w t 0 text
+         let (fileOut, _) := runCommand sess.fuel fileSt
+         let typed := typeLines sess.fuel ((splitLF text).filter (fun l => !l.isEmpty)) (cliCreate (F := Float) w t 0)
+         let (pipeOut, _) := runCommand sess.fuel typed
+         (sess, if fileOut == pipeOut then "same" else "DIFF")
      | none => (sess, "bad-utf8"))
   | ["state"] => (sess, encState sess.st.state)
   | ["reads"] => (sess, toString sess.st.reads)
